@@ -100,10 +100,15 @@ def structure(C):
 def cfgs(draw, nmax=24):
     N = 2 * draw(st.integers(1, nmax // 2))
     delta = draw(gen.logfloat(0.01, 1.0))
-    L0 = N * delta * draw(gen.logfloat(0.2, 20.0))
+    L0 = N * delta * draw(st.one_of(gen.logfloat(0.2, 20.0), gen.logfloat(1e-3, 1e4)))
     if draw(st.integers(0, 5)) == 0:
         L0 = draw(st.sampled_from([float("inf"), 1e6, 1e9]))          # Kolmogorov-like outer scales are valid inputs
-    return {"N": N, "delta": delta, "r0": draw(gen.logfloat(0.05, 1.0)), "L0": L0,
+    r0 = draw(st.one_of(gen.logfloat(0.05, 1.0), gen.logfloat(1e-3, 100.0)))
+    if draw(st.integers(0, 7)) == 0:
+        # whole-number parameters given as Python / NumPy integers (a 1 m pixel, r0 = 1, L0 = 25) are the same numbers
+        it = draw(st.sampled_from([int, np.int64, np.int32]))
+        delta, r0, L0 = it(draw(st.integers(1, 3))), it(draw(st.integers(1, 4))), it(draw(st.sampled_from([5, 25, 100])))
+    return {"N": N, "delta": delta, "r0": r0, "L0": L0,
             "l0": draw(st.one_of(gen.logfloat(1e-4, 0.1), st.just(2 * delta), st.just(delta), st.sampled_from([0, 0.0]))), "k": draw(gen.logfloat(0.3, 3.0)), "seed": draw(st.integers(0, 2**31))}
 
 
